@@ -200,3 +200,98 @@ impl Width {
         }
     }
 }
+
+/// The `Iterator` protocol on one of the library's iterators: every way of consuming it
+/// (collect, count, last, nth, fold, after a partially consumed prefix as well) must tell the
+/// same sequence, and `size_hint` must bracket what is left. The methods are called on the
+/// library's own iterator type (not on an adaptor), so specialised `count` / `nth` / `last` /
+/// `fold` implementations are what runs. `key` projects an item onto something comparable.
+pub fn iter_protocol<I, K, F, P>(what: &str, mk: F, key: P, salt: u64) -> Result<(), String>
+where
+    F: Fn() -> I,
+    I: Iterator,
+    P: Fn(&I::Item) -> K,
+    K: PartialEq + std::fmt::Debug,
+{
+    let mut all: Vec<K> = Vec::new();
+    let mut it = mk();
+    while let Some(x) = it.next() {
+        all.push(key(&x));
+        if all.len() > 5_000_000 {
+            return Err(format!("{} does not terminate", what));
+        }
+    }
+    let len = all.len();
+    let hint_ok = |h: (usize, Option<usize>), left: usize| h.0 <= left && h.1.map_or(true, |u| u >= left);
+    let h = mk().size_hint();
+    if !hint_ok(h, len) {
+        return Err(format!("{}.size_hint() = {:?} but it yields {} items", what, h, len));
+    }
+    let c = mk().count();
+    if c != len {
+        return Err(format!("{}.count() = {} but it yields {} items", what, c, len));
+    }
+    let l = mk().last().map(|x| key(&x));
+    if l.as_ref() != all.last() {
+        return Err(format!("{}.last() = {:?} but the sequence ends with {:?}", what, l, all.last()));
+    }
+    let f = mk().fold(0usize, |n, _| n + 1);
+    if f != len {
+        return Err(format!("{}.fold() visits {} items of {}", what, f, len));
+    }
+    let mut ks = vec![1usize, len / 2, len.saturating_sub(1), len];
+    ks.sort();
+    ks.dedup();
+    for k in ks {
+        if k > len || (k == 0 && len > 0) {
+            continue;
+        }
+        let left = len - k;
+        let mut it = mk();
+        for _ in 0..k {
+            it.next();
+        }
+        let h = it.size_hint();
+        if !hint_ok(h, left) {
+            return Err(format!("{} after {} items: size_hint() = {:?} but {} items are left", what, k, h, left));
+        }
+        let c = it.count();
+        if c != left {
+            return Err(format!("{} after {} items: count() = {} but {} items are left", what, k, c, left));
+        }
+        let mut it = mk();
+        for _ in 0..k {
+            it.next();
+        }
+        let l = it.last().map(|x| key(&x));
+        let exp = if left > 0 { all.last() } else { None };
+        if l.as_ref() != exp {
+            return Err(format!("{} after {} items: last() = {:?}, expected {:?}", what, k, l, exp));
+        }
+        let mut it = mk();
+        for _ in 0..k {
+            it.next();
+        }
+        let rest: Vec<K> = {
+            let mut v = Vec::new();
+            it.for_each(|x| v.push(key(&x)));
+            v
+        };
+        if rest[..] != all[k..] {
+            return Err(format!("{} after {} items: for_each() visits {:?}, expected {:?}", what, k, rest, &all[k..]));
+        }
+    }
+    let j = (salt % (len as u64 + 2)) as usize;
+    let mut it = mk();
+    let x = it.nth(j).map(|x| key(&x));
+    if x.as_ref() != all.get(j) {
+        return Err(format!("{}.nth({}) = {:?}, the sequence has {:?} there", what, j, x, all.get(j)));
+    }
+    if j < len {
+        let y = it.next().map(|x| key(&x));
+        if y.as_ref() != all.get(j + 1) {
+            return Err(format!("{}: next() after nth({}) = {:?}, the sequence has {:?} there", what, j, y, all.get(j + 1)));
+        }
+    }
+    Ok(())
+}
